@@ -339,11 +339,17 @@ class Model:
         solutions: list[dict[str, int]] = []
         iterations = [0]  # Use list for mutation in nested function
 
+        # Unnamed variables ("_v3") are hidden from the result, but they still have to be decided
+        # when a constraint mentions them (auxiliary variables left by the SAT encoder are in none)
+        constrained = self._constrained_names()
+
         def backtrack(domains: dict[str, set[int]]) -> bool:
             iterations[0] += 1
 
             # Check if all assigned
-            unassigned = [n for n in domains if len(domains[n]) > 1 and not n.startswith("_")]
+            unassigned = [
+                n for n in domains if len(domains[n]) > 1 and (not n.startswith("_") or n in constrained)
+            ]
             if not unassigned:
                 # Found solution
                 sol = {n: next(iter(d)) for n, d in domains.items() if not n.startswith("_")}
@@ -375,6 +381,21 @@ class Model:
             return Result(solutions[0], 0, iterations[0], 0)
 
         return Result(solutions[0], 0, iterations[0], 0, solutions=tuple(solutions))
+
+    def _constrained_names(self) -> set[str]:
+        """Names of all variables that occur in at least one added constraint."""
+        names: set[str] = set()
+
+        def walk(obj: Any) -> None:
+            if isinstance(obj, IntVar):
+                names.add(obj.name)
+            elif isinstance(obj, (tuple, list)):
+                for item in obj:
+                    walk(item)
+
+        for constraint in self._constraints:
+            walk(constraint)
+        return names
 
     def _propagate(self, domains: dict[str, set[int]]) -> bool:
         """Apply arc consistency until fixpoint. Returns False if domain wipeout."""
